@@ -2,7 +2,8 @@ prop("C11",
      level_text="Lean 4 proofs, for ALL strings (unbounded character lists), over the executable key/paging/API model that "
                 "gxdrv_keys runs: parse_format (ParseKey inverts genKey on well-formed parts; five shape corollaries), "
                 "format_injective, pod_key_decodes, podkeys_distinct (any owner kind, any pool annotation), apptype_roundtrip "
-                "(+ counter for the pre-fix table), list_entry_releases_itself / list_entry_releases_pod, "
+                "(+ counter for the pre-fix table), builtin_prefix_only_from_documented_kinds (sts_ / dp_ are reached only from "
+                "statefulset(s) / deployment / replicaset up to case and the tables' own short words), list_entry_releases_itself / list_entry_releases_pod, "
                 "omitted_apptype_means_statefulset (+ counter for the missing else), release_only_owner / "
                 "release_request_only_owners, pages_partition, pages_index_unique, pagin_fields_*, parseSize_pos, parsePage_range, "
                 "every_ip_reachable_iff (both directions of the 99999 page clamp), and the necessity counters "
